@@ -31,14 +31,30 @@ JUNK = ["junk-string", 42]
 def plan(tier):
     return {"shards": 8 if tier == "quick" else 16, "budget_s": 25 if tier == "quick" else 420,
             "required_counters": ["ops_returned", "ops_raised", "exhaustive_histories", "random_histories",
-                                  "raised_after_partial_processing"],
+                                  "raised_after_partial_processing", "copy_raised", "copy_returned"],
             "exhaustive": "all single operations over the 4-object universe (quick); all histories of length 2 "
                           "(thorough, when counter exhaustive_len2_slices_completed == shards)"}
 
 
 # ------------------------------------------------------------------ universe
+def uncopyable_field_func():
+    """a valid field_func that deepcopy cannot copy (a functools.partial bound to a lock - stands for an
+    interpolation table with an open file, a lock, a C handle ...): copy() of the source, or of any collection
+    containing it, raises part-way"""
+    import functools
+    import threading
+
+    def table_field(field, observers, table):
+        return np.zeros((len(observers), 3)) if field == "B" else None
+    return functools.partial(table_field, table=threading.Lock())
+
+
+COPY_KW = {None: {}, "bad_position": {"position": "nowhere"}, "bad_style": {"style_nosuchproperty": 1},
+           "bad_style_value": {"style_opacity": "very"}, "ok_position": {"position": (1, 2, 3)}}
+
+
 class Universe:
-    def __init__(self, n_src, n_sens, n_coll):
+    def __init__(self, n_src, n_sens, n_coll, flavor=0):
         import magpylib as magpy
         from magpylib._src.obj_classes import class_Collection as CC
 
@@ -54,6 +70,9 @@ class Universe:
         self.CC = CC
         with quiet():
             for i in range(n_src):
+                if flavor == 1 and i in (0, 2):
+                    self.register(magpy.misc.CustomSource(field_func=uncopyable_field_func()))
+                    continue
                 self.register(magpy.magnet.Cuboid(dimension=(1, 1, 1), polarization=(0, 0, 1)) if i % 2 == 0
                               else magpy.current.Circle(diameter=1, current=1))
             for _ in range(n_sens):
@@ -209,7 +228,7 @@ def apply_op(uni, op):
         uni.register_tree(r)
         return r
     if k == "copy":
-        r = uni.resolve(op["o"]).copy()
+        r = uni.resolve(op["o"]).copy(**COPY_KW[op.get("kw")])
         uni.register_tree(r)
         return r
     if k == "new":
@@ -244,7 +263,8 @@ def all_ops(n_obj, coll_idx, max_args=2, junk=("junk0",)):
     for o in range(n_obj):
         for p in coll_idx + [None, "junk0"]:
             ops.append({"op": "set_parent", "o": o, "p": p})
-        ops.append({"op": "copy", "o": o})
+        for kw in COPY_KW:
+            ops.append({"op": "copy", "o": o, "kw": kw})
         for b in range(n_obj):
             ops.append({"op": "plus", "a": o, "b": b})
     for a in [()] + argsets:
@@ -274,7 +294,8 @@ def rand_op(rng, n_obj, colls):
     if k == "plus":
         return {"op": "plus", "a": int(rng.integers(0, n_obj)), "b": int(rng.integers(0, n_obj))}
     if k == "copy":
-        return {"op": "copy", "o": int(rng.integers(0, n_obj))}
+        return {"op": "copy", "o": int(rng.integers(0, n_obj)),
+                "kw": [None, "bad_position", "bad_style", "bad_style_value", "ok_position"][int(rng.integers(0, 5))]}
     return {"op": "new", "args": refs(int(rng.integers(0, 4))), "override": bool(rng.random() < 0.5)}
 
 
@@ -308,6 +329,8 @@ def run_history(ctx, case):
                 if p is not None:
                     uni.register(p)
             ctx.count("ops_raised" if raised is not None else "ops_returned")
+            if op["op"] == "copy":
+                ctx.count("copy_raised" if raised is not None else "copy_returned")
             if raised is not None:
                 ctx.count("raise_type:" + type(raised).__name__)
             parents_after = [id(getattr(o, "_parent", None)) for o in uni.objs[: len(parents_before)]]
@@ -345,6 +368,9 @@ def run_shard(ctx):
         for p in pre:
             run_history(ctx, {"universe": base, "ops": p + [op]})
             ctx.count("exhaustive_histories")
+            if op["op"] in ("copy", "plus"):   # the same with a source that deepcopy cannot copy
+                run_history(ctx, {"universe": base + (1,), "ops": p + [op]})
+                ctx.count("exhaustive_histories")
     if ctx.tier == "thorough":
         pairs_done = 0
         n = len(ops1)
@@ -361,6 +387,8 @@ def run_shard(ctx):
     while not ctx.expired():
         uni_sz = (3, 2, 3)
         n_obj = sum(uni_sz)
+        if rng.random() < 0.3:
+            uni_sz = uni_sz + (1,)
         ops = []
         for _ in range(int(rng.integers(1, 16))):
             ops.append(rand_op(rng, n_obj + len(ops) // 3, list(range(5, 8)) + list(range(8, 8 + len(ops) // 3))))
